@@ -55,27 +55,27 @@ META.update({
                      'Witnesses: a catalogue of ~160 bypass programs x 4 families must be rejected by rustc at the offending line with the expected error code, each with a compiling twin.',
                 note=TRUSTED + '; rustc privacy and borrow checking'),
     'C09': dict(level='other', design_ref='DESIGN.md 4.3, 5/C09',
-                technique='outcome tables of `arbitrary`: range containment by constant folding, panic-row infeasibility by interval evaluation, reachability by evaluating rows at attained endpoint draws',
-                text='PARTIAL. Decided: (all families) any returned value comes from the canonical constructor (R-CTOR + table); (integers) int_in_range endpoints fold into the valid range and every panic row is infeasible for every value of the range; '
+                technique='outcome tables of `arbitrary`: range containment by constant folding, panic-row infeasibility by interval evaluation, reachability by folding the extracted rows at concrete draws (end points, special values, a fixed spread; all draws of 8/16-bit integer generators of another shape)',
+                text='PARTIAL. Decided: (all families) any returned value comes from the canonical constructor (R-CTOR + table); (integers) int_in_range endpoints fold into the valid range and every panic row is infeasible for every value of the range; a generator of another shape that is a function of one integer draw is decided by folding its extracted rows (conditions, overflow assertions, stored term; core integer methods modelled) over every draw of an 8/16-bit type / the special values of wider ones; '
                      '(strings) target-length range is inside the declared length range, case-mapping growth is flagged structurally; (floats) every panic row that depends on the first draw only is either proven infeasible by interval evaluation, '
-                     'or shown reachable by a concrete attained draw (violation). Not decided: rows depending on values produced in retry loops or further draws (reported as undecided), termination of loops.',
+                     'or shown reachable by a concrete attained draw out of ~100 fixed ones (violation). Not decided: rows depending on values produced in retry loops or further draws (reported as undecided), termination of loops.',
                 note=TRUSTED + '; arbitrary::Unstructured::int_in_range returns a value of the range; IEEE-754 arithmetic reproduced in the declared float type'),
     'C14': dict(level='translation_validation', design_ref='DESIGN.md 4.3 R-ARB-INT, 5/C14',
-                technique='constant folding of the int_in_range endpoints in MIR vs the reference valid range; outcome table of arbitrary vs constructor table',
-                text='For all integer types x bound-kind combinations x spellings (literal, MIN/MAX, constants, shift/arithmetic expressions): the folded int_in_range endpoints equal the reference model\'s [lo, hi] exactly, and the drawn value reaches the canonical constructor unmodified. '
+                technique='constant folding of the int_in_range endpoints in MIR vs the reference valid range; outcome table of arbitrary vs constructor table; other generator shapes: produced set over all draws of 8/16-bit types vs the valid set',
+                text='For all integer types x bound-kind combinations x spellings (literal, MIN/MAX, constants, shift/arithmetic expressions): the folded int_in_range endpoints equal the reference model\'s [lo, hi] exactly, and the drawn value reaches the canonical constructor unmodified; with a non-empty valid set some path returns a value (`Range::is_empty` guards fold on constant end points). Generators that are another function of one draw: for 8/16-bit draw types the set of stored values over all draws must be exactly the valid set; wider draw types are left undecided. '
                      'Surjectivity of int_in_range onto its range is the arbitrary crate\'s contract.',
                 note=TRUSTED + '; arbitrary::Unstructured::int_in_range is onto its range'),
     'C16': dict(level='translation_validation', design_ref='DESIGN.md 4.2 R-MSG, 5/C16',
                 technique='sibling agreement: relation stated by the Display template (decoded from fmt::Arguments in MIR) vs relation enforced by the check of the same variant',
                 text='For every bound-violation variant of every corpus declaration: the format template (decoded from the compiled fmt::Arguments bytes) names the newtype; an argument is the very bound term the check compares against; '
-                     'the relation phrase, mapped through a fixed vocabulary to a set of orderings, equals the accept-set extracted from the validator check. ParseError::Validate and serde errors display the validation error through its own Display.',
+                     'the relation phrase, mapped through a fixed vocabulary to a set of orderings, equals the accept-set extracted from the validator check (a float guard that orders through total_cmp is a different relation and is reported). ParseError::Validate and serde errors display the validation error through its own Display.',
                 note=TRUSTED + '; the relation vocabulary (greater than / at least / less or equal to / ...) is the reading of the English phrases'),
 })
 
 META.update({
     'C02': dict(level='translation_validation', design_ref='DESIGN.md 4.2 R-BOUND/R-SAN/R-VAL, 4.4 G-SPEC/G-LWW, 5/C02',
                 technique='MIR guard-program extraction over a spelling x layout corpus vs the value each spelling denotes; compile verdicts for forms that must be refused; lints on the attribute parser',
-                text='Every bound spelling (literals of both signs, underscores, int literal for float, exponent floats, T::MIN/MAX, constants, -CONST, parenthesised / shift / arithmetic expressions, calls) x attribute layout (block order, trailing commas, closure vs path, regex literal vs static) '
+                text='Every bound spelling (literals of both signs, underscores, int literal for float, exponent floats, T::MIN/MAX, constants, -CONST, !literal, parenthesised / shift / arithmetic / cast / block / if / match expressions, macro invocations, module paths, calls) x attribute layout (block order, trailing commas, closure vs path, regex literal vs static) '
                      'is expanded and the extracted guard program must contain every written rule with the bound the spelling denotes (constants folded by rustc and by the checker). Repeated blocks must be refused or all enforced. '
                      'Parser lints: no speculative parse on the live token stream followed by another alternative (G-SPEC); no unguarded last-writer-wins assignment in the attribute loop (G-LWW).',
                 note=TRUSTED),
@@ -85,9 +85,9 @@ META.update({
                      'are compiled one by one and the verdict compared with the reference predicate; every corpus declaration the model accepts must expand. The generated boundary/default unit tests are compiled in test mode and their bodies folded: they must fail exactly for contradictory expression bounds / invalid defaults.',
                 note=TRUSTED + '; the reference predicate is written from README/docs (Appendix A), cells where docs and code disagree without a guarantee at stake are unasserted'),
     'C11': dict(level='other', design_ref='DESIGN.md 5/C11',
-                technique='term rewriting of the extracted sanitizer chain (S o S = S under named std lemmas) + purity of the extracted checks + re-entry table comparison',
+                technique='term rewriting of the extracted sanitizer chain (S o S = S under named std lemmas) + purity of the extracted checks + re-entry table comparison + outcome tables of every exit/re-entry step of the chain clause',
                 text='PARTIAL. For declarations with built-in guards only: the stored value is a chain of built-in sanitizers; the chain applied twice reduces to itself under lemmas L1-L3 about std (trim / case mapping idempotent, case mapping preserves the absence of outer whitespace); '
-                     'every check is a recognised test of the stored value through pure std callees; re-entering the constructor with the stored value evaluates the same checks. The Unicode lemmas themselves are assumptions; custom sanitizers are covered by the premise.',
+                     'every check is a recognised test of the stored value through pure std callees; re-entering the constructor with the stored value evaluates the same checks. Chain clause: into_inner/Into/Serialize hand out exactly the stored value and TryFrom/FromStr/Deserialize are the constructor on what the inner type reads back. Declarations with a custom sanitizer ("declared idempotent"): the generated pipeline is the declared one, step for step in declared order. The Unicode lemmas themselves are assumptions.',
                 note=TRUSTED + '; lemmas L1-L3 (Unicode data) are assumed, not analysed'),
     'C15': dict(level='other', design_ref='DESIGN.md 4.2 R-NOSTD, 4.4 G-STD, 5/C15',
                 technique='compile verdict of a #![no_std] corpus crate (stable + nightly) against nutype with default features off; resolved-path scan of its MIR; lint of quote! templates for std paths',
